@@ -82,6 +82,14 @@ func init() {
 			RealStub: realStubL1,
 		},
 		PropertyPlan{
+			ID: "C16", Level: "exploration",
+			Families: []FamilyPlan{{Name: "c16", Quick: 160, Thorough: 6000, Chunk: 5}},
+			Rule:     "each run = 2-4 hwmon fans with an empty database (every fan needs the PWM sweep and the RPM-curve measurement), seeded controller start delays 0-3 s, fan plants with time constants 50 ms..4 s, quantising drivers (6-17 levels); the seeded scheduler interleaves their seam events; 25% of the runs have the option true (control group). Oracle: per fan the interval [first, last] analysis I/O event on the kernel's event sequence; with the option false the intervals are pairwise disjoint. distinct = scenario hash; every run is non-trivial (>= 2 fans analysed, else exit 2)",
+			Probes:   []string{"serial-run", "overlap-observed-with-option-true"},
+			Assume:   []string{"an analysis is delimited by its first and last file operation issued from the PWM sweep or the initialisation sequence"},
+			RealStub: realStubL1,
+		},
+		PropertyPlan{
 			ID: "C12", Level: "exploration",
 			Families: []FamilyPlan{{Name: "c12", Quick: 240, Thorough: 8000, Chunk: 10}},
 			Rule:     "each run = closed loop with full-range fans (min 0, max 255) and the direct algorithm, where the request equals the curve value; maps from the configuration (sparse, plateaus) or from the real sweep against a quantising driver; every cycle compares the write (or the decision not to write) with the reference nearest-supported-input computation. distinct = scenario hash; non-trivial = at least one write judged",
